@@ -653,4 +653,29 @@ theorem old_loader_agrees_on_saved_model {env : ModelEnv} (hE : EqId env) (files
     have e : abs m = s1 := by injection htie
     exact ⟨m, sn, rfl, hn1, by rw [e]; exact hsm1.trans hn2.symm⟩
 
+/-- … and on the native YAML file (int keys, `toDoc` as `save_to_file` writes it) -/
+theorem old_loader_agrees_on_saved_model_yaml {env : ModelEnv} (hE : EqId env) (files : Files) (fac : Factory)
+    (hF : FieldsDistinct fac.L) (nested : Bool) (name : String) (s : MS.St) (h : MS.Inv s) (hv : MS.Valid fac.L s)
+    (hres : LinksResolve fac.L s) (hdk : DefKeysDistinct s) (hatt : AttIdsDistinct s) (hname : AttNamesNonempty s)
+    (hx : StNoExtras s) (hfl : FloatsOk fac s) (hflat : nested = false → FlatFieldsOk s)
+    (hfuel : s.assets.length ≤ env.whileFuel) :
+    ∃ m sn, updater_process_model files env (encOld nested name (emitOld (toDoc fac.L s))) fac = .ok m ∧
+      fromDoc fac.L (fun _ => true) (toDoc fac.L s) = .ok sn ∧ SameModel fac.L (abs m) sn := by
+  obtain ⟨⟨hnx, hwf, hdefs⟩, _⟩ := old_wf_of_saved_model fac nested s h hF hres hdk hatt hx hfl hflat
+  have hlen : (toDoc fac.L s).assets.length ≤ env.whileFuel := by
+    rw [toDoc_assets fac.L s h, List.length_map]; exact hfuel
+  have htie := old_loader_agrees_with_native hE files fac hF (fun _ => true) nested name (toDoc fac.L s) hnx hwf
+    hdefs hlen
+  obtain ⟨s1, hs1, _, _, hsm1, _⟩ := load_toDoc_from fac.L (abs (emptyModel name)) (emptyModel_abs_newModel {} name) s h hv
+    hres hdk hatt hname
+  have hs1' : PyLeg.fromDocFrom fac.L (fun _ => true) (abs (emptyModel name)) (toDoc fac.L s) = .ok s1 := hs1
+  rw [hs1'] at htie
+  obtain ⟨sn, hn1, hn2, _⟩ := C07.load_save_yaml_partial fac.L s h hv hatt hres hdk hname
+  cases hm : updater_process_model files env (encOld nested name (emitOld (toDoc fac.L s))) fac with
+  | error e => rw [hm] at htie; cases htie
+  | ok m =>
+    rw [hm] at htie
+    have e : abs m = s1 := by injection htie
+    exact ⟨m, sn, rfl, hn1, by rw [e]; exact hsm1.trans hn2.symm⟩
+
 end MalVerif.PropsGen.C18
